@@ -8,6 +8,8 @@
    nested concatenations).  Constant bits are LSB first: 0, 1, 2 = x, 3 = z, 4 = -, 5 = m.
    Widths and bit indices are Z; counts are nat. *)
 From Coq Require Import ZArith List Bool String Ascii DecimalString.
+From V.Model Require Import Bits.
+From V.Model Require Shape.
 Import ListNotations.
 Open Scope Z_scope.
 
@@ -45,8 +47,11 @@ Record doc := Doc { doc_modules : list module }.
 (* What the design said about a foreign instance (Instance("type", p_.., a_.., i_.., o_.., io_..)):
    given alongside the document.  fp_conn = None: connection not predicted, only its width. *)
 Record fport := FP { fp_name : ident; fp_dir : dir; fp_width : Z; fp_conn : option sigspec }.
-Record fspec := FS { fs_module : ident; fs_cell : ident; fs_type : ident; fs_params : list param;
-                     fs_attrs : list attr; fs_ports : list fport }.
+(* a parameter / attribute value as the design gave it in Python: an int of any size and sign (bool and int-valued
+   enum members included), Const(v, Shape(w, sg)), a str, a float (its repr) *)
+Inductive xval := XInt (v : Z) | XConst (v w : Z) (sg : bool) | XStr (s : string) | XReal (r : string).
+Record fspec := FS { fs_module : ident; fs_cell : ident; fs_type : ident; fs_params : list (ident * xval);
+                     fs_attrs : list (ident * xval); fs_ports : list fport }.
 
 (* ------------------------------------------------------------------ decidable equalities *)
 Fixpoint list_eqb {A} (e : A -> A -> bool) (a b : list A) : bool :=
@@ -456,16 +461,96 @@ Definition fport_ok (ws : list wire) (c : cell) (p : fport) : bool :=
                                  list_eqb sbit_eqb (sig_bits ws (snd ns)) (sig_bits ws s)) (c_conns c)
   end.
 
+(* ---- back/rtlil.py _const() / _signed() for parameter and attribute values
+   def _const(value):
+       if isinstance(value, str): return f"\"{value.translate(_escape_map)}\""
+       elif isinstance(value, int):
+           if value in range(0, 2**31-1): return f"{value:d}"
+           else:
+               width = max(32, bits_for(value))
+               return _const(_ast.Const(value, width))
+       elif isinstance(value, _ast.Const):
+           value_twos_compl = value.value & ((1 << len(value)) - 1)
+           return "{}'{:0{}b}".format(len(value), value_twos_compl, len(value))
+   Cell.emit: float -> `parameter real \n "<repr>"`; _signed(value) -> `parameter signed` (int: value < 0,
+   Const: signed shape).  Attributes are written without a flag. *)
+(* the n low bits of v in two's complement, LSB first *)
+Fixpoint bits_lsb (n : nat) (v : Z) : list Z :=
+  match n with O => [] | S k => (v mod 2) :: bits_lsb k (v / 2) end.
+Definition const_width (v : Z) : Z := Z.max 32 (Shape.bits_for v false).
+(* (flag, text): flag 0 plain, 1 signed, 2 real *)
+Definition emit_int (v : Z) : Z * pval :=
+  if (0 <=? v) && (v <? 2 ^ 31 - 1) then (0, PInt v)
+  else ((if v <? 0 then 1 else 0), PBits (bits_lsb (Z.to_nat (const_width v)) v)).
+Definition emit_xval (x : xval) : Z * pval :=
+  match x with
+  | XInt v => emit_int v
+  | XConst v w sg => ((if sg then 1 else 0), PBits (bits_lsb (Z.to_nat w) v))
+  | XStr s => (0, PStr s)
+  | XReal r => (2, PStr r)
+  end.
+Definition xparam_text (nx : ident * xval) : param :=
+  Par (fst nx) (fst (emit_xval (snd nx))) (snd (emit_xval (snd nx))).
+Definition xattr_text (nx : ident * xval) : attr := (fst nx, snd (emit_xval (snd nx))).
+
+(* ---- reading a constant back: the integer a `[signed] W'bits` / decimal constant denotes *)
+Fixpoint unsigned_of (bits : list Z) : Z :=
+  match bits with [] => 0 | b :: r => b + 2 * unsigned_of r end.
+Definition is01 (b : Z) : bool := (b =? 0) || (b =? 1).
+Definition decode_bits (sg : bool) (bits : list Z) : Z :=
+  norm (Sh (Z.of_nat (List.length bits)) sg) (unsigned_of bits).
+Definition decode_param (flag : Z) (p : pval) : option Z :=
+  match p with
+  | PInt z => Some z
+  | PBits bits => if forallb is01 bits then Some (decode_bits (flag =? 1) bits) else None
+  | PStr _ => None
+  end.
+(* the integer the design meant (None: not a number) *)
+Definition xval_num (x : xval) : option Z :=
+  match x with
+  | XInt v => Some v
+  | XConst v w sg => Some (norm (Sh w sg) v)
+  | _ => None
+  end.
+Definition optz_eqb (o : option Z) (v : Z) : bool := match o with Some u => u =? v | None => false end.
+
+(* numeric clause: the constant written for the parameter denotes the given integer *)
+Definition ParamNumOk (ps : list param) (nx : ident * xval) : Prop :=
+  forall v, xval_num (snd nx) = Some v ->
+  exists p, In p ps /\ par_name p = fst nx /\ decode_param (par_flag p) (par_val p) = Some v.
+Definition param_num_ok (ps : list param) (nx : ident * xval) : bool :=
+  match xval_num (snd nx) with
+  | None => true
+  | Some v => existsb (fun p => String.eqb (par_name p) (fst nx) &&
+                                optz_eqb (decode_param (par_flag p) (par_val p)) v) ps
+  end.
+(* attributes carry no `signed` marker in the text: read with the signedness of the given value *)
+Definition AttrNumOk (ats : list attr) (nx : ident * xval) : Prop :=
+  forall v, xval_num (snd nx) = Some v ->
+  exists a, In a ats /\ fst a = fst nx /\ decode_param (fst (emit_xval (snd nx))) (snd a) = Some v.
+Definition attr_num_ok (ats : list attr) (nx : ident * xval) : bool :=
+  match xval_num (snd nx) with
+  | None => true
+  | Some v => existsb (fun a => String.eqb (fst a) (fst nx) &&
+                                optz_eqb (decode_param (fst (emit_xval (snd nx))) (snd a)) v) ats
+  end.
+
 (* the instance appears with exactly the given type, parameters, attributes and port connections
-   (port names, directions and widths are the CellOk clause, through cell_ports) *)
+   (port names, directions and widths are the CellOk clause, through cell_ports): the parameter / attribute
+   constants are exactly what _const writes for the given values, and denote the given integers *)
 Definition CellIs (f : fspec) (m : module) (c : cell) : Prop :=
   mod_name m = fs_module f /\ c_name c = fs_cell f /\ c_type c = fs_type f /\
-  SameSet (c_params c) (fs_params f) /\ SameSet (c_attrs c) (fs_attrs f) /\
+  SameSet (c_params c) (map xparam_text (fs_params f)) /\ SameSet (c_attrs c) (map xattr_text (fs_attrs f)) /\
+  (forall nx, In nx (fs_params f) -> ParamNumOk (c_params c) nx) /\
+  (forall nx, In nx (fs_attrs f) -> AttrNumOk (c_attrs c) nx) /\
   forall p, In p (fs_ports f) -> FportOk (mod_wires m) c p.
 Definition cell_is (f : fspec) (m : module) (c : cell) : bool :=
   String.eqb (mod_name m) (fs_module f) && String.eqb (c_name c) (fs_cell f) &&
   String.eqb (c_type c) (fs_type f) &&
-  same_set param_eqb (c_params c) (fs_params f) && same_set attr_eqb (c_attrs c) (fs_attrs f) &&
+  same_set param_eqb (c_params c) (map xparam_text (fs_params f)) &&
+  same_set attr_eqb (c_attrs c) (map xattr_text (fs_attrs f)) &&
+  forallb (param_num_ok (c_params c)) (fs_params f) &&
+  forallb (attr_num_ok (c_attrs c)) (fs_attrs f) &&
   forallb (fport_ok (mod_wires m) c) (fs_ports f).
 
 Definition ForeignOk (d : doc) (f : fspec) : Prop :=
